@@ -333,6 +333,50 @@ func (ip *Interp) registerIntrinsics() {
 		}
 	}
 
+	// ---- internal/concurrent.Range: sequential, every order ----
+	in["go.uber.org/thriftrw/internal/concurrent.Range"] = func(ip *Interp, fr *frame, args []Value) Value {
+		coll, fnI := args[0].(Iface), args[1].(Iface)
+		if coll.T == nil || fnI.T == nil {
+			ip.throw("explicit", "concurrent.Range: nil argument", nil)
+		}
+		fn := fnI.V
+		var errs []Value
+		call := func(k, v Value) {
+			r := ip.callValue(fr, fn, []Value{k, v}, nil)
+			if e, ok := r.(Iface); ok && e.T != nil {
+				errs = append(errs, e)
+			}
+		}
+		switch c := coll.V.(type) {
+		case Slice:
+			c = ip.concSlice(c, "concurrent.Range")
+			order := make([]int, c.Len)
+			for i := range order {
+				order[i] = i
+			}
+			for i := 0; i < c.Len-1; i++ {
+				k := ip.choose(c.Len-i, "concurrent order")
+				order[i], order[i+k] = order[i+k], order[i]
+			}
+			for _, i := range order {
+				call(st.Const(64, uint64(i)), copyVal(c.Base[c.Off+i]))
+			}
+		case *MapObj:
+			if c != nil {
+				for _, i := range ip.mapOrder(len(c.Keys)) {
+					call(copyVal(c.Keys[i]), copyVal(c.Vals[i]))
+				}
+			}
+		default:
+			ip.oom("concurrent.Range over %T", coll.V)
+		}
+		mp := ip.prog.ImportedPackage("go.uber.org/multierr")
+		if mp == nil {
+			ip.oom("multierr not loaded")
+		}
+		return ip.callSSA(fr, mp.Func("Combine"), []Value{Slice{Base: append([]Value{}, errs...), Len: len(errs), Cap: len(errs)}}, nil)
+	}
+
 	// ---- strconv.ParseFloat on symbolic digits ----
 	in["strconv.ParseFloat"] = func(ip *Interp, fr *frame, args []Value) Value {
 		s := ip.concStr(args[0].(Str))
